@@ -13,6 +13,23 @@ import vlib
 PROP = "C04"
 
 
+def shared_weapon_witness():
+    """Goliath (3) and Goliath turret (4) carry the same two weapons.  Both are customised (damage 10), then the Goliath's
+    weapon damage is set to 55: its setting is replaced in place, the turret's stale copy comes later in the section and
+    is what the file holds."""
+    import random
+    import scenarios as SC
+    base = SC.MapGen(random.Random(7), "editor", nloc=255, all_sections=True, ntrig=1).build()
+    uw = R._unit_weapons()
+    def unit(uid, dmg):
+        return {"id": uid, "hp": 256 * 100, "sh": 1, "ar": 1, "bt": 1, "mi": 1, "ga": 1, "name": None,
+                "weapons": [[w, dmg, dmg + 1] for w in uw[uid] if w < 130], "default": False}
+    a, b = next((x, y) for x in sorted(uw) for y in sorted(uw) if x < y and uw[x] and set(uw[x]) & set(uw[y]))
+    return base, {"pool": {"locs": [], "cuwps": [], "switches": []},
+                  "ops": [["upsert_units", "UNIx", [unit(a, 10)]], ["upsert_units", "UNIx", [unit(b, 10)]],
+                          ["upsert_units", "UNIx", [unit(a, 55)]]]}
+
+
 def run(ck: vlib.Check):
     n = 80 if ck.tier == "quick" else 3000
     ck.rule = ("authored scenarios on the scx fixture and synthetic bases: triggers using every supported condition / "
@@ -29,6 +46,8 @@ def run(ck: vlib.Check):
     for i in range(n):
         label, base = bs[i % len(bs)]
         cases.append((f"{label}#{i}", base, A.gen_scenario(rng, base)))
+    known, _ = vlib.load_known_findings(PROP)
+    known_keys = {f["key"]: f["text"] for f in known}
     impl = []
     types_seen = {"actions": set(), "conditions": set()}
     outcomes = {"ok": 0, "raises": 0}
@@ -46,10 +65,20 @@ def run(ck: vlib.Check):
             outcomes["raises"] += 1
             continue
         outcomes["ok"] += 1
-        bad = R.c04_oracle(base, spec, bytes(r[1]))
+        keys = set()
+        bad = R.c04_oracle(base, spec, bytes(r[1]), keys)
+        if not bad and not keys <= set(known_keys):
+            bad = "difference of the kind " + ", ".join(sorted(keys)) + ", which is not a recorded finding"
         if bad:
             ck.violation(f"{label}: {bad}", {"kind": "authored", "label": label, "base_hex": base.hex(), "spec": spec,
                                              "detail": bad}, True)
+    # recorded finding: replayed on the implementation, printed only while it still fails
+    if "shared-weapon-stale-copy" in known_keys:
+        base, spec = shared_weapon_witness()
+        r = A.run_impl(base, spec)
+        keys = set()
+        if r[0] == 1 and R.c04_oracle(base, spec, bytes(r[1]), keys) is None and "shared-weapon-stale-copy" in keys:
+            ck.known("key=shared-weapon-stale-copy " + known_keys["shared-weapon-stale-copy"])
     ck.extra["types_exercised"] = {k: len(v) for k, v in types_seen.items()}
     ck.extra["outcomes"] = outcomes
     if drv_ok:
